@@ -744,7 +744,9 @@ impl PublicKey {
     ///
     /// See the documentation on `KeyValue` for more information on SPKI.
     pub fn from_pem_spki(pem: &str, scheme: SignatureScheme) -> Result<Self> {
-        let der_bytes = pem::parse(pem).unwrap();
+        let der_bytes = pem::parse(pem).map_err(|e| {
+            Error::Encoding(format!("Could not parse PEM: {:?}", e))
+        })?;
         Self::from_spki_with_keyid_hash_algorithms(
             der_bytes.contents(),
             scheme,
